@@ -74,6 +74,8 @@ def jobs(tier, seed):
     out.append(('msmpair', '1074', '1114', 3, 2, 1, 'value'))
     out.append(('msmpair', '1107', '1087', 2, 2, 2, 'value'))
     out.append(('crc',))
+    out.append(('sockpair',))
+    out.append(('awkward',))
     return out
 
 
@@ -274,6 +276,86 @@ def run_reader2(spec, res):
     res.absorb_engine(eng)
 
 
+def run_sockpair(res):
+    """two socket-backed readers/wrappers one after the other in one process: the second delivers exactly its own stream"""
+    from pyrtcm.socketwrapper import SocketWrapper
+    for (n1, n2, enc) in ((3, 4, 0), (5, 2, 0), (4, 4, 1)):
+        eng = sym.Engine(max_paths=200, conc_limit=16)
+        eng.time_budget = 60
+        H = {}
+
+        def fn():
+            d1, d2 = sym.symbytes("a", n1), sym.symbytes("b", n2)
+            if enc:
+                d1 = SymBytes(list(b"%x\r\n" % n1) + d1.e + list(b"\r\n"))
+                body2 = d2
+                d2 = SymBytes(list(b"%x\r\n" % n2) + d2.e + list(b"\r\n0\r\n\r\n"))
+            else:
+                body2 = d2
+            H['d2'] = body2
+            s1, s2 = shims.SymSocket(d1, maxcuts=1), shims.SymSocket(d2, maxcuts=1)
+            try:
+                w1 = SocketWrapper(s1, encoding=enc, bufsize=4096)
+                w1.read(2)
+                w2 = SocketWrapper(s2, encoding=enc, bufsize=4096)
+                out = []
+                for _ in range(n2 + 3):
+                    x = w2.read(1)
+                    if len(x) == 0:
+                        break
+                    out += list(x)
+                return out
+            finally:
+                s1.close()
+                s2.close()
+        for path in eng.explore(fn):
+            if path.kind == 'abort':
+                continue
+            res['obligations'] += 1
+            if path.kind != 'ret':
+                res['obligations'] -= 1
+                res['inconclusive' if path.kind != 'exc' else 'harness_errors'].append(f"sockpair: {path.kind} {str(path.value)[:60]}")
+                continue
+            if sym.same_bytes(path.value, list(H['d2'])):
+                res['discharged'] += 1
+            else:
+                res['refuted'] += 1
+                res['cex'].append({'kind': 'sockpair', 'first': "0102030405"[:2 * n1], 'second': "a1a2a3a4a5"[:2 * n2], 'encoding': enc,
+                                   'why': "a second socket wrapper delivers bytes that are not its own stream", 'dedup': f"sockpair:{enc}"})
+            res.count('pairs')
+        res.absorb_engine(eng)
+
+
+def run_awkward(res):
+    """MSM messages with awkward masks (last satellite slot, unmapped slots, reserved signals) parsed concretely under the tracker: the
+    lookup tables must be unchanged afterwards and no shared state written"""
+    from pyrtcm.rtcmmessage import RTCMMessage
+    base = table_snapshot()
+    n = 0
+    for b in structs.MSM_BASES:
+        for lvl in (1, 4, 7):
+            ident = str(b + lvl)
+            if not structs.wellformed(ident):
+                continue
+            for pl in structs.random_msm_cases(ident, 3, 6):
+                for opt in (1, 2):
+                    try:
+                        RTCMMessage(payload=pl, labelmsm=opt)
+                    except Exception:  # noqa
+                        pass
+                    n += 1
+    ch = tables_changed(base)
+    res['obligations'] += 1
+    res['paths'] += n
+    res['decisions'] += n
+    if ch:
+        res['refuted'] += 1
+        res['cex'].append({'kind': 'tables', 'why': f"parsing MSM messages modified library tables: {ch[:4]}", 'changed': ch[:10], 'msm_awkward': True, 'dedup': "tables"})
+    else:
+        res['discharged'] += 1
+    res.count('pairs', n)
+
+
 def run_crc(res):
     from . import h_C08
     h_C08.run_hist(res)
@@ -289,6 +371,10 @@ def run_job(spec):
         run_reader2(spec, res)
     elif k == 'msmpair':
         h_C09.run_pair(('pair',) + tuple(spec[1:]), res)
+    elif k == 'sockpair':
+        run_sockpair(res)
+    elif k == 'awkward':
+        run_awkward(res)
     else:
         run_crc(res)
     res['samples'].append({'job': [str(x)[:50] for x in spec], 'pairs': res['counters'].get('pairs', 0)})
